@@ -266,7 +266,7 @@ PROPS['C04'] = dict(
                'the clause is the one of observe_at: if Ok, the bytes are the reference encoding of the pointer form as written',
     technique='Verus postcondition Ok ==> shape_ok on the extracted process + Kani contract harnesses against the ISA oracle (Err side)',
     verus=['encv', 'expr'],
-    depends_on=['C05'],   # 'outside its field' is about the VALUE of the operand expression (C05)
+    depends_on=['C05', 'C10'],   # 'outside its field' is about the VALUE of the operand expression (C05); a register given through a .def alias or a value through a .set / .equ symbol presupposes the binding rules (C10)
     kani=[dict(slice='enc', harnesses=_enc_harnesses(), cex=_enc_cex), dict(slice='conv', harnesses=lambda tier: _conv_harnesses(tier))],
     cex_replay=_enc_witness_from_cex,
     witnesses=witnesses_enc(),
@@ -502,7 +502,7 @@ PROPS['C11'] = dict(
                'compared with their flattened text (bounded). Which of several directories holding the same name wins is left open, as in the '
                'property. The model of paths (join / parent / is_relative uninterpreted) and of the file system is assumed, not verified.',
     technique='Verus contracts on parse_file_internal and on the two directive arms lifted mechanically out of Directive::parse (R19), over an assumed std::path/fs model',
-    verus=['inc', 'dir', 'cond'],
+    verus=['inc', 'dir', 'cond', 'mexp'],   # mexp: the entry points parse_file / parse_str and ParseContext::new (what a parse starts from)
     witnesses=witnesses_c11,
     functions=['parser::parse_file_internal', 'Directive::parse (Include arm, IncludePath arm: lifted by R19; Exit arm in unit DIR)', 'parser::parse_iter (EndFile)'],
     explanation='found_ok / file_ctx / pfi_outcome / pfi_rel in contracts/inc.vspec are the oracle. ParseContext is extracted verbatim (only the Rc/RefCell '
